@@ -14,7 +14,7 @@
     the library rewound it with an accepted seek to 0
     ([C19_lookups_serve_from_the_start]). *)
 From Coq Require Import List NArith ZArith String Bool.
-From Kismet Require Import FS.Fs FS.Prog Spec.Wp Ops.Ops Spec.StackSpec Proofs.StackSweep Proofs.ReadOnlyFirst Proofs.OffsetZero Ops.Client.
+From Kismet Require Import FS.Fs FS.Prog Spec.Wp Ops.Ops Spec.StackSpec Proofs.StackSweep Proofs.ReadOnlyFirst Proofs.OffsetZero Ops.Client Proofs.FinalizeMode.
 Import ListNotations.
 
 Theorem C19_handles_matrix : forall c op, In c configs -> In op ops -> handle_ok c op = true.
@@ -83,3 +83,23 @@ Theorem C19_offset_monitor_meaning : forall fd p a n s,
   clean fd (match oz_step (fd :: s) (EvCall (COpen p a) (RFd fd)) with Some s' => s' | None => [fd] end) /\
   oz_step (fd :: s) (EvCall (CSeek fd 0) (RErr EIO)) = Some (fd :: s).
 Proof. intros. cbn [oz_step N.eqb]. repeat split; apply clean_remove. Qed.
+
+(** Finalisation of a populated temporary file - the step get_or_update / ensure, promotion and
+    the temp-file API all go through before publishing - makes the file read-only for BOTH values
+    of auto_sync and arbitrary responses: it reports success only after an fchmod of that
+    descriptor to 0444 that did not fail. *)
+Theorem C19_finalisation_sets_read_only_whatever_auto_sync : forall fd p (sync : bool) s,
+  wp (fz_step fd) (finalize_tempfile fd p sync) (fun r s' => match r with Ok _ => s' = true | _ => True end) s.
+Proof. exact finalize_sets_read_only. Qed.
+
+Theorem C19_finalisation_on_every_run : forall fd p (sync : bool) w o,
+  let '(r, _, _, tr) := run (finalize_tempfile fd p sync) w o in
+  match r with Ok _ => mon_run (fz_step fd) false tr = Some true | _ => True end.
+Proof. exact finalize_sets_read_only_run. Qed.
+
+Theorem C19_finalisation_monitor_meaning : forall fd s,
+  fz_step fd s (EvCall (CFchmod fd 292) ROk) = Some true /\
+  fz_step fd s (EvCall (CFchmod fd 292) (RErr EIO)) = Some s /\
+  fz_step fd s (EvCall (CFchmod fd 420) ROk) = Some s /\
+  fz_step fd s (EvCall (CFsync fd) ROk) = Some s.
+Proof. exact fz_monitor_meaning. Qed.
